@@ -105,9 +105,11 @@ def replay_case(c):
                 out = [[dict(r) for r in res] for res in ds.res_iter][0]
                 fields = [f['name'] for f in ds.dp.descriptor['resources'][0]['schema']['fields']]
             else:
-                row = dict(a=py(c['arg']), ab=1, b=2)
-                ds = Flow(tuple_source([('t', [('a', 'string'), ('ab', 'integer'), ('b', 'integer')], [row])]),
-                          DF.find_replace([dict(name='a', patterns=[dict(find='b', replace='X')])])).datastream()
+                # a second replaced field after the first: it is processed whatever the first one holds (a null included)
+                row = dict(a=py(c['arg']), ab=1, b=2, c='bxb')
+                ds = Flow(tuple_source([('t', [('a', 'string'), ('ab', 'integer'), ('b', 'integer'), ('c', 'string')], [row])]),
+                          DF.find_replace([dict(name='a', patterns=[dict(find='b', replace='X')]),
+                                           dict(name='c', patterns=[dict(find='b', replace='X')])])).datastream()
                 out = [[dict(r) for r in res] for res in ds.res_iter][0]
                 fields = [f['name'] for f in ds.dp.descriptor['resources'][0]['schema']['fields']]
     except Exception as e:
@@ -143,6 +145,8 @@ def replay_case(c):
     r = out[0]
     if norm_real(r['a']) != norm_spec(c['result'][0]) or r['ab'] != 1 or r['b'] != 2:
         return dict(ok=False, why='replaced value differs', got=repr(r['a']), want=c['result'][0])
+    if r.get('c') != 'XxX':
+        return dict(ok=False, why='the second replaced field was not processed', got=repr(r.get('c')), first_field=repr(r['a']))
     return dict(ok=True)
 
 
